@@ -16,7 +16,7 @@ RULE = ("cases from rng(seed, 4, 0, i): connected-per-cluster graphs of R^2 and/
         "cond up to 1e6, measurement noise 10^U(-3,1); optimize() with default arguments or random tol in 10^U(-10,-2), max_iter in 1..20; every 3rd case then edits the problem in place (information replaced / scaled in place, measurement, a vertex, a fixed flag) and re-optimizes the same graph object. "
         "distinct = spec fingerprint; non-trivial = some free vertex is displaced by more than 1e-3 from the optimum initially and cond(H)<=1e10.")
 REQ = ["eval:optimum-reached", "eval:final-chi2-at-optimum", "class:landmark_edges", "class:parallel_edges", "class:far_initial_guess", "class:mixed_dimensions",
-       "class:illconditioned_information", "class:shared_pose_storage", "class:reoptimised_after_edits", "eval:optimum-reached-after-edits", "class:information_scales:per_edge", "class:information_scales:all_tiny"]
+       "class:illconditioned_information", "class:shared_pose_storage", "class:reoptimised_after_edits", "eval:optimum-reached-after-edits", "class:information_scales:per_edge", "class:information_scales:all_tiny", "class:edges_prebound_to_stale_vertices"]
 PLAN = {
     "quick": {"cases": 1600, "soft_s": 60, "min_nontrivial": 400, "require": REQ},
     "thorough": {"cases": 80000, "soft_s": 1100, "min_nontrivial": 10000, "require": REQ},
@@ -40,6 +40,8 @@ def run_case(ctx, i, rng):
     ffp = bool(rng.random() < 0.5)
     kw["fix_first_pose"] = ffp
     g = M.build(spec)
+    if not ctx.check("edges-linked-to-the-listed-vertices", M.edges_linked_to_graph(g), {"prebound": bool(spec.get("prebind_stale"))}, None, {"graph": {k: v for k, v in spec.items() if k != "truth_by_id"}}):
+        return
     if ffp:
         g._vertices[0].fixed = True
     x0 = M.snapshot_poses(g)
